@@ -107,7 +107,7 @@ Proof.
   assert (Hs : skip_ws text = text).
   { apply skip_ws_start. unfold text. rewrite <- (app_nil_r (render _ _ _)). apply render_starts. exact Hc. }
   rewrite Hs. unfold text at 2. rewrite <- (app_nil_r (render _ _ _)).
-  rewrite (render_reads_back (norm_indent indent) (canon v) Hc 0%nat [] (S (length text))).
+  rewrite (render_reads_back (norm_indent indent) (canon v) Hc 0%nat [] (S (2 * length text))).
   - reflexivity.
   - reflexivity.
   - pose proof (cost_le_length (norm_indent indent) (canon v) Hc 0%nat). unfold text. lia.
